@@ -20,6 +20,8 @@ var (
 	Limit    int64
 	SiteHits []bool
 	LastSite uint32
+	// Trace, when non-nil, receives every site executed (sequential dry run of C12).
+	Trace *[]uint32
 )
 
 // Progress is bumped whenever the workload hands something to the library; the
@@ -27,7 +29,15 @@ var (
 var Progress atomic.Int64
 
 // HangPanic is raised from the yield hook when the step budget is exhausted.
+// A dependency may swallow the panic (jsonld recovers and converts panics of
+// its marshalers), so the hook also latches HangHit / HangSite, which the
+// oracle inspects after the operation whatever way it ended.
 type HangPanic struct{ Site uint32 }
+
+var (
+	HangHit  bool
+	HangSite uint32
+)
 
 // Hook is installed as verifsim.Hook for single-task properties.
 func Hook(s uint32) {
@@ -35,11 +45,19 @@ func Hook(s uint32) {
 	if int(s) < len(SiteHits) {
 		SiteHits[s] = true
 	}
+	if Trace != nil && len(*Trace) < 1<<18 {
+		*Trace = append(*Trace, s)
+	}
 	if Limit > 0 && Steps > Limit {
 		Limit = 0
+		HangHit, HangSite = true, s
 		panic(HangPanic{Site: s})
 	}
 }
+
+// Blocked is the BlockedHook outside a scheduled run: a single goroutine that
+// cannot take a lock will never get it.
+func Blocked() { panic("deadlock: the only running goroutine is blocked on a lock or a sync.Once") }
 
 // ---------------------------------------------------------------- black box
 
